@@ -77,10 +77,11 @@ def run(tier: str, seed: int) -> int:
     design_bad = [r for r in results if r.violated]
     if design_bad:
         chk.notes["design_counterexample"] = design_bad[0].out[design_bad[0].out.index("Error:"):][:2000]
-    configs = [Cfg(n=8, nin=2, nout=3, mode="inside", seed=seed), Cfg(n=8, nin=2, nout=5, mode="outside_uuid", seed=seed + 1)]
+    configs = [Cfg(n=8, nin=2, nout=3, mode="inside", seed=seed), Cfg(n=8, nin=2, nout=6, mode="outside_uuid", seed=seed + 2, dup=2)]      # few distinct sites: interior empty partitions, renumbering moves
     if not quick:
         configs += [Cfg(n=8, nin=2, nout=6, mode="inside", seed=seed + 2), Cfg(n=8, nin=2, nout=3, mode="outside_fixed", seed=seed + 3),
-                    Cfg(n=8, nin=3, nout=4, mode="outside_uuid", seed=seed + 4), Cfg(n=8, nin=2, nout=3, mode="inside", overwrite=True, prev=4, seed=seed + 5)]
+                    Cfg(n=8, nin=3, nout=4, mode="outside_uuid", seed=seed + 4), Cfg(n=8, nin=2, nout=5, mode="outside_uuid", seed=seed + 1),
+                    Cfg(n=9, nin=2, nout=7, mode="inside", seed=seed + 6, dup=3), Cfg(n=8, nin=2, nout=3, mode="inside", overwrite=True, prev=4, seed=seed + 5)]
     allruns = []
     for ci, cfg in enumerate(configs):
         ref = packfs.run_pack(cfg, keep=True)
@@ -100,6 +101,19 @@ def run(tier: str, seed: int) -> int:
             plans.append({k: "OSError" if (not quick or k % 2) else "FileNotFoundError"})
             if not quick:
                 plans.append({k: "FileNotFoundError"})
+        if quick:
+            # both fault kinds at every call of the rarer operations (rename, remove, mkdir, existence tests): error handling there is
+            # kind-specific (an `exists` guard, a swallowed FileNotFoundError), and the alternation above would test one kind only
+            by_site = {}
+            for e in ref.events:
+                by_site.setdefault((e["op"], e["origin"]), []).append(e["n"])
+            for (op, _org), ns in by_site.items():
+                if op in ("open", "invalidate_cache"):
+                    continue
+                for k in (ns if len(ns) <= 8 else ns[:4] + ns[-4:]):
+                    for kindf in ("OSError", "FileNotFoundError"):
+                        if {k: kindf} not in plans:
+                            plans.append({k: kindf})
         for k in ls_calls:
             plans.append({k: "stale"})
         for _ in range(15 if quick else 150):                           # pairs
@@ -133,7 +147,7 @@ def run(tier: str, seed: int) -> int:
                 if left:
                     chk.violation(f"leftover|{cfg.key()}", f"the call returned but left temporary files: {left}; {desc}", f"# {desc}", ctx=dict(site="pack_partitions_to_parquet", mode="leftover"))
             else:
-                c2 = Cfg(n=cfg.n, nin=cfg.nin, nout=cfg.nout, mode=cfg.mode, overwrite=True, prev=0, p=cfg.p, compression=cfg.compression, seed=cfg.seed)
+                c2 = Cfg(n=cfg.n, nin=cfg.nin, nout=cfg.nout, mode=cfg.mode, overwrite=True, prev=0, p=cfg.p, compression=cfg.compression, seed=cfg.seed, dup=cfg.dup)
                 rr = packfs.run_pack(c2, root=r.root, keep=True)
                 got2 = clean(snapshot(r.root))
                 if rr.status != "returned" or got2 != want:
